@@ -173,6 +173,13 @@ class Recorder:
         self.samples = []
         self.max_samples = max_samples
         self.last_fail = None
+        self.soft = []               # (sig, msg) violations noted without aborting the case
+
+    def soft_violation(self, sig, msg=''):
+        """Note a violation and carry on with the case. If the signature is a listed (open) known finding it
+        is counted as such; otherwise the runner turns it into a regular Violation once the oracle returns.
+        Lets a search continue *behind* a known finding instead of ending every case that meets it."""
+        self.soft.append((sig, msg))
 
     def cls(self, label, n=1):
         self.classes[str(label)] += n
